@@ -644,6 +644,13 @@ impl Prop for C01 {
                 v.push(json!({"kind": "socket", "ty": ty, "idlen": idlen, "shapes": shapes}));
             }
         }
+        // READY for every configured identity length: the short/long size form of the command
+        // frame flips somewhere inside this range, at a point that depends on the type name
+        for ty in ALL_TYPES {
+            for lo in (1usize..=255).step_by(32) {
+                v.push(json!({"kind": "ready_sweep", "ty": ty, "from": lo, "to": (lo + 31).min(255)}));
+            }
+        }
         for ty in ["PUB", "XPUB", "PUSH", "DEALER", "ROUTER"] {
             for shapes in [vec![vec![1usize], vec![0], vec![5, 0]], vec![vec![255], vec![256], vec![0, 0, 1]], vec![vec![70_000], vec![3]], vec![vec![2]; 12]] {
                 v.push(json!({"kind": "buffered", "ty": ty, "shapes": shapes}));
@@ -662,6 +669,15 @@ impl Prop for C01 {
 
     fn run(&self, case: &Value, ctx: &mut Ctx) {
         match s(case, "kind") {
+            "ready_sweep" => {
+                let ty = s(case, "ty").to_string();
+                ctx.sample("ready_sweep", || case.clone());
+                for idlen in u(case, "from") as usize..=u(case, "to") as usize {
+                    let one = json!({"kind": "socket", "ty": ty, "idlen": idlen, "shapes": []});
+                    ctx.count("ready_identity_lengths_swept");
+                    sim::run(socket_case(ctx, &ty, idlen, &[], &one));
+                }
+            }
             "buffered" => {
                 ctx.eval(crate::prng::hash_str(&case.to_string()), true);
                 ctx.sample("buffered", || case.clone());
@@ -742,6 +758,7 @@ impl Prop for C01 {
             ("socket_messages", 200),
             ("handshakes_judged", 36),
             ("rig_handshakes_judged", 50),
+            ("ready_identity_lengths_swept", 2295),
             ("messages_encoded_behind_queued_bytes", 60),
             ("frames_len_0", 10),
             ("frames_len_255", 10),
